@@ -102,7 +102,8 @@ func (m *MethodEvaluator) errorResolve() error {
 		}
 	}
 
-	m.parser.ConsumeLastReturnT()
+	// the return types collected so far belong to the enclosing method: an
+	// undefined-method diagnostic in its body does not take them back
 	m.parser.SetLastEvaluatedT(base.MakeUnknown())
 
 	return nil
